@@ -2,6 +2,7 @@ package main
 
 import (
 	"fmt"
+	"os"
 	"go/constant"
 	"go/token"
 	"go/types"
@@ -271,6 +272,25 @@ func (fr *Frame) callFunc(b *ssa.BasicBlock, f *ssa.Function, c *ssa.CallCommon,
 		eng.needDecl(fmt.Sprintf("(declare-fun %s ((_ BitVec 64)) %s)", fn, res))
 		return &Val{T: rt, S: app(fn, app("g_iref", args[1].S))}
 	}
+	if strings.HasPrefix(name, "verif_sameelems[") {
+		// the two slices hold the same sequence of elements
+		sl, ok := args[0].T.Underlying().(*types.Slice)
+		if !ok {
+			panic(unsupported("verif_sameelems: not a slice"))
+		}
+		x, y := args[0].S, args[1].S
+		key := vc.elemKey(sl.Elem())
+		ax := vc.readCell(st, key, app("g_sarr", x))
+		ay := vc.readCell(st, key, app("g_sarr", y))
+		p := vc.sameSeqPred(sl.Elem())
+		t := sAnd(sEq(app("g_slen", x), app("g_slen", y)), app(p, ax, app("g_soff", x), ay, app("g_soff", y), app("g_slen", x)))
+		return &Val{T: types.Typ[types.Bool], S: vc.def("Bool", "sameelems", t)}
+	}
+	if strings.HasPrefix(name, "verif_freshslice[") || name == "verif_fresh" {
+		for _, t := range vc.specTrack {
+			t.usesNow = true
+		}
+	}
 	if strings.HasPrefix(name, "verif_freshslice[") {
 		// the slice's backing array was allocated during this execution of the
 		// function under contract (or the slice has no capacity at all)
@@ -279,7 +299,11 @@ func (fr *Frame) callFunc(b *ssa.BasicBlock, f *ssa.Function, c *ssa.CallCommon,
 			n0 = "g_next0"
 		}
 		sl := args[0].S
-		return &Val{T: types.Typ[types.Bool], S: vc.def("Bool", "freshsl", sOr(sEq(app("g_scap", sl), bvConst(0, 64)), app("bvuge", app("g_sarr", sl), n0)))}
+		now := st.next
+		if vc.clauseNext != "" {
+			now = vc.clauseNext
+		}
+		return &Val{T: types.Typ[types.Bool], S: vc.def("Bool", "freshsl", sOr(sEq(app("g_scap", sl), bvConst(0, 64)), sAnd(app("bvuge", app("g_sarr", sl), n0), app("bvult", app("g_sarr", sl), now))))}
 	}
 	if f.Pkg != nil && name == "verif_fresh" {
 		// the object was allocated during this execution of the function under contract
@@ -288,7 +312,12 @@ func (fr *Frame) callFunc(b *ssa.BasicBlock, f *ssa.Function, c *ssa.CallCommon,
 			n0 = "g_next0"
 		}
 		ref := app("g_iref", args[0].S)
-		return &Val{T: types.Typ[types.Bool], S: vc.def("Bool", "fresh", sAnd(sNot(sEq(ref, bvConst(0, 64))), app("bvuge", ref, n0)))}
+		// allocated after entry and before now
+		now := st.next
+		if vc.clauseNext != "" {
+			now = vc.clauseNext
+		}
+		return &Val{T: types.Typ[types.Bool], S: vc.def("Bool", "fresh", sAnd(sNot(sEq(ref, bvConst(0, 64))), app("bvuge", ref, n0), app("bvult", ref, now)))}
 	}
 	if m := eng.modelFor(f); m != nil {
 		return m.apply(fr, b, f, c, args, st, reach, pos)
@@ -307,6 +336,11 @@ func (fr *Frame) callFunc(b *ssa.BasicBlock, f *ssa.Function, c *ssa.CallCommon,
 	}
 	ct := eng.contractOf(f)
 	hasBody := len(f.Blocks) > 0 && eng.loopInfo(f).rpo != nil
+	if fr.pure && hasBody && strings.HasPrefix(name, "spec_") && inModule(f) && !fr.onStack(f) && !noSpecDefs {
+		if v := fr.specDefCall(f, c, args, st); v != nil {
+			return v
+		}
+	}
 	if fr.pure || vc.inlineAll {
 		if hasBody && !fr.onStack(f) && (inModule(f) || eng.inlineExternal(f)) {
 			return inline()
@@ -380,7 +414,14 @@ func (vc *VC) evalClauseVal(cl *Clause, args []Val, st *State, parent *Frame) Va
 	if cl.Fn == nil {
 		panic(unsupported("clause function missing: " + cl.FnName))
 	}
+	// "now" for the freshness predicates is the state the clause is evaluated in,
+	// not the clause function's own scratch allocations
+	savedNext := vc.clauseNext
+	if vc.clauseNext == "" {
+		vc.clauseNext = st.next
+	}
 	res, _, _ := vc.execFunc(cl.Fn, args, st.clone(), "true", parent, true, nil)
+	vc.clauseNext = savedNext
 	if len(res) != 1 {
 		panic(unsupported("clause returned no value: " + cl.FnName))
 	}
@@ -521,6 +562,7 @@ func (fr *Frame) applyContract(b *ssa.BasicBlock, ct *Contract, c *ssa.CallCommo
 			}
 			vc.note("contracted callee with unbounded static effects: " + ct.FullKey())
 		} else {
+			vc.bumpNext(st)
 			for _, k := range m.keys() {
 				vc.registerKey(k)
 				if framed {
@@ -529,7 +571,6 @@ func (fr *Frame) applyContract(b *ssa.BasicBlock, ct *Contract, c *ssa.CallCommo
 					vc.havocHeap(st, k, "", nil)
 				}
 			}
-			vc.bumpNext(st)
 		}
 	} else {
 		vc.bumpNext(st) // may allocate
@@ -749,7 +790,12 @@ func (fr *Frame) quantifierAll(c *ssa.CallCommon, args []Val, st *State, reach s
 	vc.qn++
 	q := fmt.Sprintf("g_q%d", vc.qn)
 	vc.quant++
+	vc.qvars = append(vc.qvars, [2]string{q, vc.sorts().sortOf(pt)})
+	savedCur := vc.qcur
+	vc.qcur = ""
 	res, _, _ := vc.execClosure(ci, []Val{{T: pt, S: q}}, st.clone(), "true", fr)
+	vc.qcur = savedCur
+	vc.qvars = vc.qvars[:len(vc.qvars)-1]
 	vc.quant--
 	t := fmt.Sprintf("(forall ((%s %s)) %s)", q, vc.sorts().sortOf(pt), res[0].S)
 	return &Val{T: types.Typ[types.Bool], S: vc.def("Bool", "quant", t)}
@@ -763,22 +809,37 @@ func (fr *Frame) quantifier(forall bool, c *ssa.CallCommon, args []Val, st *Stat
 	}
 	vc.qn++
 	q := fmt.Sprintf("g_q%d", vc.qn)
+	bv64 := "(_ BitVec 64)"
+	savedCur, savedOff, savedRepl := vc.qcur, vc.qoff, vc.qrepl
 	vc.quant++
+	vc.qvars = append(vc.qvars, [2]string{q, bv64})
+	vc.qcur, vc.qoff = q, ""
 	res, _, _ := vc.execClosure(ci, []Val{{T: types.Typ[types.Int], S: q}}, st.clone(), "true", fr)
+	off := vc.qoff
+	vc.qvars = vc.qvars[:len(vc.qvars)-1]
 	vc.quant--
+	vc.qcur, vc.qoff = savedCur, savedOff
 	body := res[0].S
 	idx := q // the term the range speaks about
 	// Re-base the bound variable on the absolute position in the first slice the
 	// body indexes with it: elements are then read as (select arr J), the shape the
 	// facts about copy/append are stated in, so that instantiation by matching
 	// works across shifted copies.
-	if off := sliceOffsetOf(body, q); off != "" {
+	if off != "" {
 		j := q + "a"
 		rel := fmt.Sprintf("(bvsub %s %s)", j, off)
 		vc.quant++
+		vc.qvars = append(vc.qvars, [2]string{j, bv64})
+		vc.qcur = ""
+		vc.qrepl = append(append([][2]string{}, savedRepl...), [2]string{fmt.Sprintf("(bvadd %s %s)", off, rel), j})
 		res2, _, _ := vc.execClosure(ci, []Val{{T: types.Typ[types.Int], S: rel}}, st.clone(), "true", fr)
+		body = res2[0].S
+		for _, r := range vc.qrepl {
+			body = strings.ReplaceAll(body, r[0], r[1])
+		}
+		vc.qvars = vc.qvars[:len(vc.qvars)-1]
 		vc.quant--
-		body = strings.ReplaceAll(res2[0].S, fmt.Sprintf("(bvadd %s %s)", off, rel), j)
+		vc.qcur, vc.qrepl = savedCur, savedRepl
 		idx = rel
 		q = j
 	}
@@ -825,4 +886,226 @@ func sliceOffsetOf(body, q string) string {
 		}
 		from = i + 1
 	}
+}
+
+// sameSeqPred declares, once per element sort, the predicate
+//   sameseq(A, a, B, b, n)  ==  forall j. 0 <= j < n  ==>  A[a+j] = B[b+j]
+// as an uninterpreted symbol with the consequences of that definition the
+// proofs use (symmetry, transitivity, element access, the empty range). The
+// definition itself is never unfolded by the solver: sequence equality is
+// established by the model of copy() and carried through contracts as an atom.
+func (vc *VC) sameSeqPred(et types.Type) string {
+	es := vc.sorts().sortOf(et)
+	name := "g_sameseq_" + vc.sorts().shortName("seq:"+es)
+	arr := "(Array (_ BitVec 64) " + es + ")"
+	bv := "(_ BitVec 64)"
+	eng := vc.eng
+	eng.needDecl(fmt.Sprintf("(declare-fun %s (%s %s %s %s %s) Bool)", name, arr, bv, arr, bv, bv))
+	b5 := fmt.Sprintf("((g_A %s) (g_a %s) (g_B %s) (g_b %s) (g_n %s))", arr, bv, arr, bv, bv)
+	at := func(A, a, B, b string) string { return fmt.Sprintf("(%s %s %s %s %s g_n)", name, A, a, B, b) }
+	eng.needDecl(fmt.Sprintf("(assert (forall %s (! (=> %s %s) :pattern (%s))))", b5, at("g_A", "g_a", "g_B", "g_b"), at("g_B", "g_b", "g_A", "g_a"), at("g_A", "g_a", "g_B", "g_b")))
+	eng.needDecl(fmt.Sprintf("(assert (forall %s (! (=> (bvsle g_n (_ bv0 64)) %s) :pattern (%s))))", b5, at("g_A", "g_a", "g_B", "g_b"), at("g_A", "g_a", "g_B", "g_b")))
+	b3 := fmt.Sprintf("((g_A %s) (g_a %s) (g_n %s))", arr, bv, bv)
+	eng.needDecl(fmt.Sprintf("(assert (forall %s (! %s :pattern (%s))))", b3, at("g_A", "g_a", "g_A", "g_a"), at("g_A", "g_a", "g_A", "g_a")))
+	b7 := fmt.Sprintf("((g_A %s) (g_a %s) (g_B %s) (g_b %s) (g_C %s) (g_c %s) (g_n %s))", arr, bv, arr, bv, arr, bv, bv)
+	eng.needDecl(fmt.Sprintf("(assert (forall %s (! (=> (and %s %s) %s) :pattern (%s %s))))", b7, at("g_A", "g_a", "g_B", "g_b"), at("g_B", "g_b", "g_C", "g_c"), at("g_A", "g_a", "g_C", "g_c"), at("g_A", "g_a", "g_B", "g_b"), at("g_B", "g_b", "g_C", "g_c")))
+	b6 := fmt.Sprintf("((g_A %s) (g_a %s) (g_B %s) (g_b %s) (g_n %s) (g_j %s))", arr, bv, arr, bv, bv, bv)
+	eng.needDecl(fmt.Sprintf("(assert (forall %s (! (=> (and %s (bvsle (_ bv0 64) g_j) (bvslt g_j g_n)) (= (select g_A (bvadd g_a g_j)) (select g_B (bvadd g_b g_j)))) :pattern (%s (select g_A (bvadd g_a g_j))))))", b6, at("g_A", "g_a", "g_B", "g_b"), at("g_A", "g_a", "g_B", "g_b")))
+	return name
+}
+
+// ---------------------------------------------------------------------------
+// Specification functions as SMT definitions
+// ---------------------------------------------------------------------------
+
+var noSpecDefs = os.Getenv("GOVC_NOSPECDEF") != ""
+
+type specDef struct {
+	keys    []string          // heap arrays the body reads (directly or through callees)
+	usesNow bool              // the body uses a freshness predicate (depends on the allocation counter)
+	defs    map[string]string // versions of those arrays -> name of the definition
+}
+
+type specTracker struct {
+	keys    map[string]bool
+	usesNow bool
+}
+
+// specDefCall translates a call of a specification function (spec_...) into an
+// application of an SMT function definition whose parameters are the function's
+// parameters and whose body is its symbolic execution in the current heap. One
+// definition is shared by all calls made in states that agree on the heap
+// arrays the body reads, so "the same predicate of the same objects" is the same
+// term on both sides of an obligation and needs no quantifier reasoning.
+func (fr *Frame) specDefCall(f *ssa.Function, c *ssa.CallCommon, args []Val, st *State) *Val {
+	vc := fr.vc
+	if f.Signature.Results().Len() != 1 {
+		return nil
+	}
+	for _, a := range args {
+		if a.Loc != nil || a.Tup != nil {
+			return nil
+		}
+	}
+	rt := f.Signature.Results().At(0).Type()
+	if vc.specDefs == nil {
+		vc.specDefs = map[*ssa.Function]*specDef{}
+	}
+	verKey := func(sd *specDef) string {
+		var b strings.Builder
+		fmt.Fprintf(&b, "e%d", st.epoch)
+		for _, k := range sd.keys {
+			b.WriteString("|")
+			b.WriteString(vc.heapVer(st, k))
+		}
+		if sd.usesNow {
+			now := st.next
+			if vc.clauseNext != "" {
+				now = vc.clauseNext
+			}
+			b.WriteString("|now:" + now + "|" + vc.frame.next0)
+		}
+		return b.String()
+	}
+	apply := func(name string) *Val {
+		ts := make([]string, len(args))
+		for i, a := range args {
+			ts[i] = a.S
+		}
+		if len(ts) == 0 {
+			return &Val{T: rt, S: name}
+		}
+		return &Val{T: rt, S: app(name, ts...)}
+	}
+	noteOuter := func(sd *specDef) {
+		for _, t := range vc.specTrack {
+			for _, k := range sd.keys {
+				t.keys[k] = true
+			}
+			if sd.usesNow {
+				t.usesNow = true
+			}
+		}
+	}
+	if sd := vc.specDefs[f]; sd != nil {
+		if n, ok := sd.defs[verKey(sd)]; ok {
+			noteOuter(sd)
+			return apply(n)
+		}
+	}
+	// symbolic parameters
+	vc.qn++
+	id := vc.qn
+	params := make([]Val, len(args))
+	var plist []string
+	savedVars, savedCur, savedOff, savedRepl := vc.qvars, vc.qcur, vc.qoff, vc.qrepl
+	vc.qvars = nil
+	for i, p := range f.Params {
+		n := fmt.Sprintf("g_sp%d_%d", id, i)
+		srt := vc.sorts().sortOf(p.Type())
+		params[i] = Val{T: p.Type(), S: n}
+		plist = append(plist, "("+n+" "+srt+")")
+		vc.qvars = append(vc.qvars, [2]string{n, srt})
+	}
+	vc.qcur, vc.qoff, vc.qrepl = "", "", nil
+	tr := &specTracker{keys: map[string]bool{}}
+	vc.specTrack = append(vc.specTrack, tr)
+	vc.quant++
+	// scratch allocations of the body (closure cells) live at a counter of their
+	// own, so that the definition does not depend on the caller's allocation state
+	st2 := st.clone()
+	if !vc.declared["g_specnext"] {
+		vc.declared["g_specnext"] = true
+		vc.preamble = append(vc.preamble, "(declare-const g_specnext (_ BitVec 64))", "(assert (and (bvuge g_specnext #x2000000000000000) (bvult g_specnext #x3000000000000000)))")
+	}
+	st2.next = "g_specnext"
+	res, _, _ := vc.execFunc(f, params, st2, "true", fr, true, nil)
+	vc.quant--
+	vc.specTrack = vc.specTrack[:len(vc.specTrack)-1]
+	vc.qvars, vc.qcur, vc.qoff, vc.qrepl = savedVars, savedCur, savedOff, savedRepl
+	if len(res) != 1 || res[0].Loc != nil || res[0].Tup != nil {
+		panic(unsupported("specification function with a non-scalar result: " + f.Name()))
+	}
+	sd := vc.specDefs[f]
+	if sd == nil {
+		sd = &specDef{defs: map[string]string{}}
+		vc.specDefs[f] = sd
+	}
+	sd.keys = sortedKeys(tr.keys)
+	sd.usesNow = tr.usesNow
+	name := vc.name("spec_" + strings.TrimPrefix(f.Name(), "spec_"))
+	if len(plist) == 0 {
+		vc.emit(fmt.Sprintf("(define-fun %s () %s %s)", name, vc.sorts().sortOf(rt), res[0].S))
+	} else if vc.specHasQuant(res[0].S) {
+		// A body with quantifiers is kept behind an uninterpreted symbol with a
+		// definitional axiom (instantiated on the applications that occur): equal
+		// arguments then give equal values by congruence, without the solver
+		// having to match the quantified bodies of two expansions against each other.
+		var srts, names []string
+		for _, qv := range vc.qvarsOf(f, id) {
+			srts = append(srts, qv[1])
+			names = append(names, qv[0])
+		}
+		vc.emit(fmt.Sprintf("(declare-fun %s (%s) %s)", name, strings.Join(srts, " "), vc.sorts().sortOf(rt)))
+		ap := "(" + name + " " + strings.Join(names, " ") + ")"
+		vc.emit(fmt.Sprintf("(assert (forall (%s) (! (= %s %s) :pattern (%s))))", strings.Join(plist, " "), ap, res[0].S, ap))
+	} else {
+		vc.emit(fmt.Sprintf("(define-fun %s (%s) %s %s)", name, strings.Join(plist, " "), vc.sorts().sortOf(rt), res[0].S))
+	}
+	sd.defs[verKey(sd)] = name
+	if os.Getenv("GOVC_DEBUGSPEC") != "" {
+		fmt.Fprintf(os.Stderr, "specdef %s %s key=%s\n", f.Name(), name, verKey(sd))
+	}
+	noteOuter(sd)
+	return apply(name)
+}
+
+func (vc *VC) qvarsOf(f *ssa.Function, id int) [][2]string {
+	var res [][2]string
+	for i, p := range f.Params {
+		res = append(res, [2]string{fmt.Sprintf("g_sp%d_%d", id, i), vc.sorts().sortOf(p.Type())})
+	}
+	return res
+}
+
+// specHasQuant: does the term, with the definitions it uses, contain a quantifier?
+func (vc *VC) specHasQuant(term string) bool {
+	if strings.Contains(term, "(forall ") || strings.Contains(term, "(exists ") {
+		return true
+	}
+	if vc.quantDefs == nil {
+		vc.quantDefs = map[string]bool{}
+		vc.quantScanned = 0
+	}
+	// definitions emitted so far that contain quantifiers (transitively)
+	for ; vc.quantScanned < len(vc.lines); vc.quantScanned++ {
+		l := vc.lines[vc.quantScanned]
+		if !strings.HasPrefix(l, "(define-fun ") && !strings.HasPrefix(l, "(declare-fun g_spec_") {
+			continue
+		}
+		f := strings.Fields(l)
+		if len(f) < 2 {
+			continue
+		}
+		if strings.HasPrefix(l, "(declare-fun g_spec_") {
+			vc.quantDefs[f[1]] = true
+			continue
+		}
+		if strings.Contains(l, "(forall ") || strings.Contains(l, "(exists ") {
+			vc.quantDefs[f[1]] = true
+			continue
+		}
+		for _, sname := range symRe.FindAllString(l, -1) {
+			if sname != f[1] && vc.quantDefs[sname] {
+				vc.quantDefs[f[1]] = true
+				break
+			}
+		}
+	}
+	for _, sname := range symRe.FindAllString(term, -1) {
+		if vc.quantDefs[sname] {
+			return true
+		}
+	}
+	return false
 }
